@@ -24,7 +24,7 @@ type rtCase struct {
 	Override bool   // ImageWithExportRef names the image differently
 	ByDigest bool   // the source reference carries the digest instead of the tag
 	Strict   bool   // registry targets refuse manifests whose references are missing
-	Pre      string // empty | partial: the target already holds some blobs / complete sub-images of the graph
+	Pre      string // empty | partial: the target already holds some blobs / complete sub-images of the graph | stale-tag: the import's tag already names another complete image
 }
 
 func (c rtCase) key() string {
@@ -49,7 +49,7 @@ func randomRT(rng *rand.Rand, i int) rtCase {
 	if rng.Intn(8) == 0 {
 		c.Alg = "sha512"
 	}
-	c.Pre = []string{"empty", "empty", "empty", "partial"}[rng.Intn(4)]
+	c.Pre = []string{"empty", "empty", "empty", "partial", "stale-tag"}[rng.Intn(5)]
 	if rng.Intn(25) == 0 {
 		c.Shape.MaxBlob = 300000 + rng.Intn(900000) // a few large blobs: multi-block tar members, larger uploads
 		c.Shape.Platforms = 1 + c.Shape.Platforms%2
@@ -144,6 +144,15 @@ func runRoundTrip(run *runT, c rtCase) {
 			run.Inconclusive(fmt.Sprintf("harness: cannot pre-populate target of round trip %d: %v", c.I, err))
 			return
 		}
+	}
+	if c.Pre == "stale-tag" {
+		// the tag the import will write already names another, complete, multi-platform image
+		g2 := gen.Random(rand.New(rand.NewSource(c.Seed^0x5eed)), c.Alg, gen.Shape{Family: "oci", Kind: "index", Platforms: 2, Layers: 1, MaxBlob: 200}, "old")
+		if err := copyeng.PrePopulate(tgt, g2, nil, map[string]int{"imp": g2.Top}); err != nil {
+			run.Inconclusive(fmt.Sprintf("harness: cannot pre-populate target of round trip %d: %v", c.I, err))
+			return
+		}
+		run.Count("imports_over_a_tag_that_named_another_image", 1)
 	}
 	rc := w.client()
 	srcRef := src.Ref("v1")
